@@ -141,6 +141,7 @@ def impl_init():
         db = Database()
         scapy = [U.scapy_from_spec(s) for s in c["pkts"]]
         shared = {}
+        bufs = {}
         out = []
         path = os.path.join(work, "c16-%d.fp" % os.getpid())
         for o in c["ops"]:
@@ -167,14 +168,18 @@ def impl_init():
                         r = fingerprint_mtu(x, options=Options(database=db))
                         out.append({"mtu": [r.packet_signature.mtu, None if r.match is None else r.match.line_number]})
                 elif o["op"] == "http":
-                    raw = bytes.fromhex(c["payloads"][o["payload"]])
-                    if o["btype"] == "bytes":
-                        buf = raw
-                    elif o["btype"] == "bytearray":
-                        buf = bytearray(raw)
-                    else:
-                        buf = ReceiveBuffer()
-                        buf += raw
+                    # the SAME buffer object is handed in every time this payload is fingerprinted: a call must not consume or alter it
+                    key = (o["payload"], o["btype"])
+                    if key not in bufs:
+                        raw = bytes.fromhex(c["payloads"][o["payload"]])
+                        if o["btype"] == "bytes":
+                            bufs[key] = raw
+                        elif o["btype"] == "bytearray":
+                            bufs[key] = bytearray(raw)
+                        else:
+                            bufs[key] = ReceiveBuffer()
+                            bufs[key] += raw
+                    buf = bufs[key]
                     r = fingerprint_http(buf, options=Options(database=db))
                     out.append({"http": [None if r.match is None else r.match.line_number, bool(r.dishonest)]})
                 elif o["op"] == "imp_tcp":
